@@ -117,11 +117,11 @@ PROPS["C08"] = {
 PROPS["C09"] = {
     "title": "Pod creation is rate limited by slow start and syncs are spaced",
     "level": "exploration",
-    "level_text": "Stateful property test on the virtual clock: reconcile requests arrive at generated instants (sub-second to minutes apart, so the one-second truncation of stored timestamps is exercised); after every active sync the number of pod Creates is compared with min(maxParallelPodCreation, (1+floor(t/interval))*increase) computed in big integers from the state read, update-deletions with maxUnavailable, and two write-issuing syncs of one replica set must be >= reconcileFrequency-1s apart when the first status write succeeded. Function-level: sync pairs at generated second fractions and gaps around reconcileFrequency (TestC09Spacing), and the ramp itself at exact instants k*interval-1ns/0/+1ns through a build-tagged shim, compared for equality with the reference formula (TestC09Ramp).",
+    "level_text": "Stateful property test on the virtual clock: reconcile requests arrive at generated instants (sub-second to minutes apart, so the one-second truncation of stored timestamps is exercised); after every active sync the number of pod Creates is compared with min(maxParallelPodCreation, (1+floor(t/interval))*increase) computed in big integers from the state read, update-deletions with maxUnavailable, and two write-issuing syncs of one replica set must be >= reconcileFrequency-1s apart when the first status write succeeded. Function-level: one sync over generated populations with excluded (taint, node selector) and canary-reserved nodes and a percent increase, the percent being resolved against the targeted nodes only (TestC09Creation); sync pairs at generated second fractions and gaps around reconcileFrequency (TestC09Spacing), and the ramp itself at exact instants k*interval-1ns/0/+1ns through a build-tagged shim, compared for equality with the reference formula (TestC09Ramp).",
     "level_note": SM_NOTE + " t is measured from the Active condition's stored (second-truncated) transition time, one extra second of slack is granted.",
     "technique": "stateful property-based testing (rapid) on a virtual clock with a reference ramp formula",
-    "quick": {"jobs": [rapid_job("sm", "^TestC09SM$", 750, shards=4), rapid_job("spacing", "^TestC09Spacing$", 2000), rapid_job("ramp", "^TestC09Ramp$", 30000, requires="verif_rolling")]},
-    "thorough": {"jobs": [rapid_job("sm", "^TestC09SM$", 4000, shards=14, timeout="50m"), rapid_job("spacing", "^TestC09Spacing$", 20000, shards=2), rapid_job("ramp", "^TestC09Ramp$", 500000, requires="verif_rolling")]},
+    "quick": {"jobs": [rapid_job("sm", "^TestC09SM$", 750, shards=4), rapid_job("spacing", "^TestC09Spacing$", 2000), rapid_job("creation", "^TestC09Creation$", 2000), rapid_job("ramp", "^TestC09Ramp$", 30000, requires="verif_rolling")]},
+    "thorough": {"jobs": [rapid_job("sm", "^TestC09SM$", 4000, shards=14, timeout="50m"), rapid_job("spacing", "^TestC09Spacing$", 20000, shards=2), rapid_job("creation", "^TestC09Creation$", 30000, shards=2), rapid_job("ramp", "^TestC09Ramp$", 500000, requires="verif_rolling")]},
 }
 
 PROPS["C12"] = {
@@ -161,11 +161,11 @@ PROPS["C15"]["thorough"]["jobs"].append(rapid_job("sm", "^TestC15SM$", 800, shar
 PROPS["C06"] = {
     "title": "Auto-fail and auto-pause fire exactly on their documented triggers",
     "level": "exploration",
-    "level_text": "Generated canary situations (0-3 up-to-date canary pods with 1-2 containers, restart counts at/below/above both thresholds, last-termination times, waiting reasons inside and outside the cannot-start set and ContainerCreating, start time around maxSlowStartDuration, every autoPause/autoFail enabled combination and threshold pair, optional maxSlowStartDuration/maxRestartsDuration/canaryTimeout, previous Canary/Canary-Paused/Canary-Failed/PodRestarting conditions with ages around the limits, pause/unpause annotations) are run through 1-4 real canary syncs (ExtendedDaemonSetReplicaSet Reconcile on the virtual clock) with pod changes in between; the stored Canary-Failed/Canary-Paused conditions are compared with a three-valued reference verdict (must / must-not / either at one-second boundaries and where the statement is silent), including stickiness of Failed, unpause overriding pause but not failure, disabled features never firing, and no canary pod creation in a sync that ends paused or failed. The same verdict monitor runs in the canary-biased history tests.",
+    "level_text": "Generated canary situations (0-3 up-to-date canary pods with 1-2 containers, restart counts at/below/above both thresholds, last-termination times, waiting reasons inside and outside the cannot-start set and ContainerCreating, start time around maxSlowStartDuration, every autoPause/autoFail enabled combination and threshold pair, optional maxSlowStartDuration/maxRestartsDuration/canaryTimeout, previous Canary/Canary-Paused/Canary-Failed/PodRestarting conditions with ages around the limits, pause/unpause annotations) are run through 1-4 real canary syncs (ExtendedDaemonSetReplicaSet Reconcile on the virtual clock) with pod changes in between; the stored Canary-Failed/Canary-Paused conditions are compared with a three-valued reference verdict (must / must-not / either at one-second boundaries and where the statement is silent), including stickiness of Failed, unpause overriding pause but not failure, disabled features never firing, and no canary pod creation in a sync that ends paused or failed. A metamorphic check (TestC06Order) runs every case with at least two pods a second time with status.canary.nodes in another order and demands equal verdicts and an equal restart timeline (first/latest observed restart) after every sync. The same verdict monitor runs in the canary-biased history tests.",
     "level_note": "One-second bands around every time limit are 'either' (stored timestamps are second-truncated); with zero evaluable pods only stickiness of Failed and the unpause rule are judged (the statement's premise is 'at least one up-to-date canary pod').",
-    "technique": "property-based testing (rapid) against a three-valued reference verdict, multi-sync feedback of the stored status",
-    "quick": {"jobs": [rapid_job("verdict", "^TestC06Verdict$", 2500, shards=4)]},
-    "thorough": {"jobs": [rapid_job("verdict", "^TestC06Verdict$", 20000, shards=16, timeout="50m")]},
+    "technique": "property-based testing (rapid) against a three-valued reference verdict, multi-sync feedback of the stored status; metamorphic relation (evaluation order of the canary pods)",
+    "quick": {"jobs": [rapid_job("verdict", "^TestC06Verdict$", 2500, shards=4), rapid_job("order", "^TestC06Order$", 1500, shards=2)]},
+    "thorough": {"jobs": [rapid_job("verdict", "^TestC06Verdict$", 20000, shards=14, timeout="50m"), rapid_job("order", "^TestC06Order$", 20000, shards=8, timeout="50m")]},
 }
 
 PROPS["C16"] = {
@@ -243,3 +243,8 @@ PROPS["C19"] = {
 }
 
 NOT_APPLICABLE = {}
+
+# Replay tier: the shrunk failing case of every fixed defect as a plain deterministic check.
+for _p in ("C03", "C05", "C10", "C15", "C16", "C18", "C20"):
+    for _t in ("quick", "thorough"):
+        PROPS[_p][_t]["jobs"].append(rapid_job("regress", "^TestRegress%s$" % _p, 1))
